@@ -465,11 +465,14 @@ def backend_cases(res, tier, seed):
         written = rng.choice([len(data), len(data), len(data) - 1, 0, len(data) + 1])
         srv.serial_port.write_results = [written]
         srv.serial_port.written = []
-        r = srv._transmit(data)
+        # the library hands _transmit() the bytearray that to_bytes() returned, and hands the same bytes again on a retry:
+        # the backend must not consume or alter the caller's buffer
+        buf = bytearray(data)
+        r = C.guarded(lambda: srv._transmit(buf))
         handed = srv.serial_port.written[0] if srv.serial_port.written else None
-        impl = f'{C.hexs(handed) if handed is not None else "nothing"} {r}'
+        impl = f'{C.hexs(handed) if handed is not None else "nothing"} {r}' + ('' if bytes(buf) == data else ' CALLER-BUFFER-CHANGED:' + C.hexs(buf))
         cases.append(Case('tty-transmit', f'ttytx {written} {C.hexs(data)}', impl, {'data': C.hexs(data), 'written': written}, kind='tty/tx'))
-        if (r is True) != (written == len(data)) or handed != data:
+        if (r is True) != (written == len(data)) or handed != data or bytes(buf) != data:
             res.violation('serial _transmit: success flag or bytes written wrong', {'property': 'C12', 'input': {'data': C.hexs(data), 'written': written}, 'result': impl},
                           f'c12-ttytx|{written == len(data)}')
     for baud in [9600, 19200, 115200, 460800] + [rng.randrange(1200, 1000000) for _ in range(5)]:
